@@ -138,3 +138,38 @@ def run(chk: core.Check, pid: str, extra_models=(), backends=None, schemes=None)
         t = alltr[0]
         chk.sample({"trace": t["id"], "first_statements": t["stmts"][:4], "state_index": t["state_index"]})
     return info
+
+
+def run_split(chk: core.Check, pid: str):
+    """Trace validation of the emitted code of both halves of the repository's split example."""
+    from .. import gx
+    f = traces.REPO / "examples" / "split-ode" / "ORdmm_Land.ode"
+    ode = gx.load(f.read_text(), name="ORdmm_Land")
+    comp = ode.get_component("mechanics")
+    halves = {"mechanics": comp.to_ode(), "ep": ode - comp}
+    alltr = []
+    from gotranx.codegen.python import PythonCodeGenerator, Format as PF
+    from gotranx.codegen.c import CCodeGenerator, Format as CF
+    for name, half in halves.items():
+        other = halves["ep" if name == "mechanics" else "mechanics"]
+        for Gen, fmt in ((PythonCodeGenerator, PF.none), (CCodeGenerator, CF.none)):
+            cg = Gen(half, format=fmt)
+            mon = traces.monitor_index_of(cg) if Gen is PythonCodeGenerator else None
+            with traces.Recorder() as rec:
+                cg.rhs()
+                cg.monitor_values()
+                cg.missing_values(dict(other.missing_variables))
+            for ev in rec.events:
+                if ev["ev"] == "Emit":
+                    alltr.extend(traces.emit_event_to_traces(ev, f"ORdmm_Land-{name}", mon))
+    res, verdicts = traces.validate_emit_traces(alltr, chk.nproc)
+    chk.add_tlc(res)
+    rules = RULES_OF[pid]
+    for t, v in zip(alltr, verdicts):
+        for fl in (v or []):
+            if fl["rule"] in rules:
+                chk.violation(f"{pid}:trace:{fl['rule']}:{t['backend']}:{t['fn']}:{t['model']}",
+                              {"trace": t["id"], "line": fl["line"], "statement": t["stmts"][fl["line"] - 1]},
+                              f"{t['id']}: statement {fl['line']} violates {fl['rule']}")
+    chk.traces += len(alltr)
+    chk.extra.setdefault("trace_leg", []).append({"split_example_traces": len(alltr)})
